@@ -135,13 +135,14 @@ func startBackend(t testing.TB) (*httptest.Server, *backendSeen) {
 
 type witnessCase struct {
 	Chain []Elem `json:"chain"`
-	Req   Req    `json:"req"`
+	Req   Req    `json:"req"`  // as it arrives at Helios
+	Wire  string `json:"wire"` // X-API-Key value handed to the HTTP client
 }
 
 // TestC17BinaryOrderWitness: valid chains of built-ins with >= 2 headers instances through the real
 // binary and a live backend.
 func TestC17BinaryOrderWitness(t *testing.T) {
-	sub := lab.Sub("order-witness-binary", "rapid: the real helios binary with a valid chain of built-ins (length 2..5) that contains >= 2 `headers` instances (labels h<i>) and optionally custom-auth / size_limit / request-id / logging / gzip, "+
+	sub := lab.Sub("order-witness-binary", "rapid: the real helios binary with a valid chain of built-ins (length 2..5) that contains >= 2 `headers` instances (labels h<i>) and optionally custom-auth (ordinary or unusual non-empty apiKey; the request key is modelled as it arrives after the HTTP parser trimmed it) / size_limit / request-id / logging / gzip, "+
 		"one request through a live httptest backend; oracle (black box): the backend receives the request_set value of the innermost headers instance listed before it, the client receives the `set` value of the innermost "+
 		"instance that ran and the X-Verif-H-* marks of exactly the instances listed before a rejecting plugin; a rejected request (401/413) never reaches the backend; non-trivial = a headers instance on each side of a "+
 		"plugin that rejects this request, or an accepted request with >= 2 headers instances")
@@ -167,6 +168,14 @@ func TestC17BinaryOrderWitness(t *testing.T) {
 		}
 		c := witnessCase{Chain: chain, Req: genReqFor(rt, chain)}
 		c.Req.ReqMark = "" // hop through a real proxy: keep the client mark out of the picture
+		// over a real socket the HTTP parser trims field values and CR/LF cannot be sent: the request
+		// is modelled with the value that ARRIVES (a padded key can never be matched, a whitespace-only
+		// configured key rejects everybody, a whitespace-only request value arrives empty)
+		c.Wire = c.Req.APIKey
+		if strings.ContainsAny(c.Wire, "\r\n") {
+			c.Wire = "wrong"
+		}
+		c.Req.APIKey = strings.Trim(c.Wire, " \t")
 		pred := Predict(c.Chain, c.Req)
 
 		backend, seen := startBackend(t)
@@ -180,8 +189,13 @@ func TestC17BinaryOrderWitness(t *testing.T) {
 			up = h.WaitPort(port, startBudget) && h.ListensOn(port)
 			if !up {
 				log := h.Log()
+				ex, code := h.Exited() // before Kill: an exit of its own accord
 				h.Kill()
 				if !strings.Contains(log, "address already in use") {
+					if ex && code > 0 && hasEdgeKey(c.Chain) && !lab.HasPanicTrace(log) {
+						sub.Case(c, false, "edge-key-config-refused") // allowed: not an accepted configuration
+						return
+					}
 					sub.Case(c, false, "did-not-start")
 					rt.Fatalf("chain %v is valid but helios did not start serving on port %d; log:\n%s", c.Chain, port, log)
 				}
@@ -193,7 +207,9 @@ func TestC17BinaryOrderWitness(t *testing.T) {
 		}
 		defer h.Kill()
 
-		status, hdr, err := doRequest(port, c.Req)
+		wireReq := c.Req
+		wireReq.APIKey = c.Wire
+		status, hdr, err := doRequest(port, wireReq)
 		seen.mu.Lock()
 		hits, breq, brid := seen.hits, seen.req, seen.rid
 		seen.mu.Unlock()
@@ -203,6 +219,11 @@ func TestC17BinaryOrderWitness(t *testing.T) {
 		nh := 0
 		nt := false
 		labels := []string{fmt.Sprintf("len=%d", n)}
+		for _, e := range c.Chain {
+			if e.Kind == "custom-auth" {
+				labels = append(labels, keyClass(e.Key))
+			}
+		}
 		if pred.RejectAt >= 0 {
 			labels = append(labels, "rejected", "rejected-by-"+c.Chain[pred.RejectAt].Kind)
 			before, after := 0, 0
@@ -274,6 +295,15 @@ func TestC17BinaryOrderWitness(t *testing.T) {
 			rt.Fatalf("chain %v request %+v: %s; log:\n%s", c.Chain, c.Req, strings.Join(d, "; "), log)
 		}
 	})
+}
+
+func hasEdgeKey(chain []Elem) bool {
+	for _, e := range chain {
+		if e.Kind == "custom-auth" && edgeKey(e.Key) {
+			return true
+		}
+	}
+	return false
 }
 
 func sortStrings(s []string) {
